@@ -79,7 +79,7 @@ class Recorder:
 
     def __enter__(self):
         impl = self.impl
-        mods = {'cpu_ops': impl.cpu_ops, 'conv_tools': impl.conv_tools}
+        mods = {'cpu_ops': impl.cpu_ops, 'conv_tools': impl.conv_tools, 'utils': impl.synapgrad.utils}
         for (mq, name), k in self.kernels.items():
             orig = getattr(mods[mq], name, None)
             if orig is None:
@@ -106,7 +106,7 @@ class Recorder:
             try:
                 ba = sig.bind(*a, **kw)
                 ba.apply_defaults()
-                args = [alpha(np, ba.arguments[p]) for p in k['params']]
+                args = [alpha(np, ba.arguments[p], rec.impl.synapgrad.Tensor) for p in k['params']]   # a Tensor argument = its data
             except Exception as ex:       # signature changed under the translator
                 args = None
                 rec.errors.append("%s.%s: cannot bind arguments (%r)" % (mq, name, ex))
@@ -526,3 +526,54 @@ def judge(obs, dtype):
         if tuple(g['grad_shape']) != tuple(g['shape']):
             bad.append(('grad-shape:' + g['who'], list(g['shape']), list(g['grad_shape'])))
     return bad
+
+
+# ------------------------------------------------------------------------------------------------ value-level oracle
+# Python-scalar operands: the results (and gradients) are BIT-EXACTLY the plain NumPy results computed in the tensor's
+# dtype.  References (the strongest bit-exact ones that hold on the repaired code; `/` is implemented as
+# x * other**-1 and other * x**-1, so true division a / s is NOT the reference: it differs in the last bit):
+SCALARS = (0.1, 0.3, 1.0 / 3.0, 2.7, 3.0, 7, 16777217)     # 2**24 + 1 is not representable in float32
+SCALAR_OPS = [
+    # (text, method, call on the Tensor, NumPy reference on the data, gradient of sum() w.r.t. x as a scalar or None)
+    ('x * s', '__mul__', lambda x, s: x * s, lambda a, s: a * s, lambda s: s),
+    ('s * x', '__rmul__', lambda x, s: s * x, lambda a, s: a * s, lambda s: s),
+    ('x + s', '__add__', lambda x, s: x + s, lambda a, s: a + s, lambda s: 1.0),
+    ('s + x', '__radd__', lambda x, s: s + x, lambda a, s: a + s, lambda s: 1.0),
+    ('x - s', '__sub__', lambda x, s: x - s, lambda a, s: a - s, lambda s: 1.0),
+    ('s - x', '__rsub__', lambda x, s: s - x, lambda a, s: s - a, lambda s: -1.0),
+    ('x / s', '__truediv__', lambda x, s: x / s, lambda a, s: a * (s ** -1), lambda s: s ** -1),
+    ('s / x', '__rtruediv__', lambda x, s: s / x, lambda a, s: (a ** -1) * s, None),
+    ('-x', '__neg__', lambda x, s: -x, lambda a, s: -a, lambda s: -1.0),
+]
+
+
+def scalar_value_inputs(np, dtype, rng):
+    xs = [np.array([1.0, 3.0], dtype=dtype)]
+    for _ in range(3):
+        xs.append(np.array([[rng.choice([-1, 1]) * rng.uniform(0.5, 3.0) for _ in range(3)] for _ in range(2)], dtype=dtype))
+    return xs
+
+
+def scalar_value_check(impl, optext, dtype, s, xlist):
+    """returns None if the result and the gradient are bit-exact, else (what, expected, observed)"""
+    np, sg = impl.np, impl.synapgrad
+    ent = [o for o in SCALAR_OPS if o[0] == optext][0]
+    a = np.array(xlist, dtype=dtype)
+    impl.reset_modes()
+    x = sg.Tensor(a.copy(), requires_grad=True)
+    y = ent[2](x, s)
+    ref = ent[3](a, s)
+    if str(y.data.dtype) != str(ref.dtype) or y.data.shape != ref.shape or np.asarray(y.data).tobytes() != np.asarray(ref).tobytes():
+        return ('value', {'dtype': str(ref.dtype), 'values': [repr(float(v)) for v in np.ravel(ref)]},
+                {'dtype': str(y.data.dtype), 'values': [repr(float(v)) for v in np.ravel(y.data)],
+                 'difference': [float(v) for v in np.ravel(np.asarray(y.data, dtype=np.float64) - np.asarray(ref, dtype=np.float64))] if y.data.shape == ref.shape else None})
+    if ent[4] is not None:
+        y.sum().backward()
+        g = x._grad
+        gref = np.full(a.shape, ent[4](s)).astype(dtype) if dtype == 'float32' else np.full(a.shape, ent[4](s), dtype=dtype)
+        if dtype == 'float32':
+            gref = np.full(a.shape, np.float32(ent[4](s)), dtype=np.float32)
+        if g is None or str(g.dtype) != dtype or g.shape != a.shape or g.tobytes() != gref.tobytes():
+            return ('gradient', {'dtype': dtype, 'values': [repr(float(v)) for v in np.ravel(gref)]},
+                    None if g is None else {'dtype': str(g.dtype), 'values': [repr(float(v)) for v in np.ravel(g)]})
+    return None
